@@ -208,6 +208,68 @@ def _strip_logging(tree):
             setattr(node, field, kept)
 
 
+def _propagate_aliases(tree):
+    """Normal form for attribute aliases: a local bound exactly once, at the top level of a function, to a pure
+    attribute chain rooted at a parameter (`state = self.state`, `p = self.proposal.flow`), with no assignment to
+    that chain or one of its prefixes anywhere in the function, is replaced by the chain itself.  (If a callee
+    re-binds the attribute between the alias and a use the two spellings differ; no rule relies on that.)"""
+    import copy as _copy
+
+    def chain_of(e):
+        parts = []
+        while isinstance(e, ast.Attribute):
+            parts.append(e.attr)
+            e = e.value
+        if isinstance(e, ast.Name) and parts:
+            return e.id, parts[::-1]
+        return None
+
+    for fn in [n for n in ast.walk(tree) if isinstance(n, (ast.FunctionDef, ast.AsyncFunctionDef))]:
+        params = {a.arg for a in fn.args.posonlyargs + fn.args.args + fn.args.kwonlyargs}
+        stores, declared = {}, set()
+        attr_stores = set()
+        for x in ast.walk(fn):
+            if isinstance(x, ast.Name) and not isinstance(x.ctx, ast.Load):
+                stores[x.id] = stores.get(x.id, 0) + 1
+            elif isinstance(x, (ast.Global, ast.Nonlocal)):
+                declared |= set(x.names)
+            elif isinstance(x, ast.ExceptHandler) and x.name:
+                declared.add(x.name)
+            elif isinstance(x, ast.Attribute) and not isinstance(x.ctx, ast.Load):
+                c = chain_of(x)
+                if c:
+                    attr_stores.add((c[0], tuple(c[1])))
+        i = 0
+        while i < len(fn.body):
+            st = fn.body[i]
+            ok = isinstance(st, ast.Assign) and len(st.targets) == 1 and isinstance(st.targets[0], ast.Name)
+            c = chain_of(st.value) if ok else None
+            if ok and c:
+                nm = st.targets[0].id
+                root, parts = c
+                ok = root in params and nm not in params and nm not in declared and stores.get(nm) == 1 and stores.get(root, 0) == 0 and not any(p_.startswith("__") for p_ in parts)
+                ok = ok and not any((root, tuple(parts[:k])) in attr_stores for k in range(1, len(parts) + 1))
+                if ok:
+                    # no read of the alias before its binding
+                    before = [x for prev in fn.body[:i] for x in ast.walk(prev) if isinstance(x, ast.Name) and x.id == nm]
+                    ok = not before
+                if ok:
+                    val = st.value
+
+                    class R(ast.NodeTransformer):
+                        def visit_Name(self, n_):
+                            if n_.id == nm and isinstance(n_.ctx, ast.Load):
+                                return ast.copy_location(_copy.deepcopy(val), n_)
+                            return n_
+
+                    del fn.body[i]
+                    fn.body[i:] = [R().visit(x) for x in fn.body[i:]]
+                    if not fn.body:
+                        fn.body = [ast.Pass()]
+                    continue
+            i += 1
+
+
 def _inline_temps(tree):
     """Normal form for single-use temporaries: `v = e` immediately followed by a simple statement that reads v exactly
     once (v bound once and read once in the whole function, the read not under and/or, a conditional expression, a
@@ -286,7 +348,7 @@ def _inline_temps(tree):
 
 
 class Program:
-    def __init__(self, repo: str = "/repo", overrides: Optional[Dict[str, str]] = None, strip_logging: bool = False, inline_temps: bool = False):
+    def __init__(self, repo: str = "/repo", overrides: Optional[Dict[str, str]] = None, strip_logging: bool = False, inline_temps: bool = False, propagate_aliases: bool = True):
         """`overrides` maps repo-relative paths to replacement source text
         (in-memory scratch variants used by the mutation self-test).
         `strip_logging` removes effect-free module-logger statements from every
@@ -295,6 +357,7 @@ class Program:
         self.overrides = overrides or {}
         self.strip_logging = strip_logging
         self.inline_temps = inline_temps
+        self.propagate_aliases = propagate_aliases
         self.repo = os.path.abspath(repo)
         self.pkgdir = os.path.join(self.repo, PKG)
         self.modules: Dict[str, ModuleInfo] = {}
@@ -333,6 +396,8 @@ class Program:
                     raise AnalysisError(f"cannot parse {rel}: {e}")
                 if self.strip_logging:
                     _strip_logging(tree)
+                if self.propagate_aliases:
+                    _propagate_aliases(tree)
                 if self.inline_temps:
                     _inline_temps(tree)
                 m = ModuleInfo(modname, path, rel, source, tree, is_pkg)
